@@ -132,17 +132,18 @@ Definition s_step (k : kind) (cap : nat) (s : st A) (o : op A) : option (st A * 
   | Extract => Some (updc s ([], SElems (cur s)))
   end.
 
-Fixpoint s_run (k : kind) (cap : nat) (s : st A) (ops : list (op A)) : option (st A * list sout) :=
+Fixpoint s_run (k : kind) (cap : nat) (s : st A) (ops : list (op A))
+  : option (st A * list (sout * list A)) :=
   match ops with
   | [] => Some (s, [])
   | o :: t =>
       match s_step k cap s o with
       | None => None
       | Some (s', r) =>
-          if fatal k r then Some (s', [r])
+          if fatal k r then Some (s', [(r, cur s')])
           else match s_run k cap s' t with
                | None => None
-               | Some (s'', rs) => Some (s'', r :: rs)
+               | Some (s'', rs) => Some (s'', (r, cur s') :: rs)
                end
       end
   end.
